@@ -52,6 +52,20 @@ def spec (op impl : String) : String :=
   | ["ptadd", p1, p2] => match parsePub (h p1), parsePub (h p2) with
     | some A, some B => (match add A B with | .inf => "inf" | q => "ok " ++ hexOf (compress q))
     | _, _ => "badpub"
+  | ["ecmrow", _, na, ng0, cnt, pa] => match parsePub (h pa) with
+    | some A =>
+      let naA := smul na.toNat! A
+      "ok" ++ String.join ((List.range cnt.toNat!).map fun j =>
+        match add naA (smul (ng0.toNat! + j) G) with
+        | .inf => " inf"
+        | q => " " ++ hexOf (compress q))
+    | none => "badpub"
+  | ["ecmult", pa, na, ng] => match parsePub (h pa) with
+    | some A => (match add (smul (ofBE (h na)) A) (smul (ofBE (h ng)) G) with | .inf => "inf" | q => "ok " ++ hexOf (compress q))
+    | none => "badpub"
+  | ["jadd", pa, pb, _, _] => match parsePub (h pa), parsePub (h pb) with
+    | some A, some B => (match add A B with | .inf => "inf" | q => "ok " ++ hexOf (compress q))
+    | _, _ => "badpub"
   | ["rawsign", d, z, k] => match sign (ofBE (h d)) (ofBE (h z)) (ofBE (h k)) with
     | some sg => "ok " ++ hexOf (sigBytes sg) ++ " " ++ toString sg.recid
     | none => "fail"
